@@ -125,7 +125,7 @@ class interface(pdb2sql):
                     np.sqrt(np.sum((xyz2 - x0)**2, 1)) <= cutoff)[0]
 
                 # exclude the H if required
-                if excludeH and atName1[i][0] == 'H':
+                if excludeH and atName1[i].startswith('H'):
                     continue
 
                 if len(contacts) > 0 and any(
@@ -136,7 +136,7 @@ class interface(pdb2sql):
                             [
                                 atName2[k] in self.backbone_atoms,
                                 not only_backbone_atoms]) and not (
-                            excludeH and atName2[k][0] == 'H')]
+                            excludeH and atName2[k].startswith('H'))]
                     if len(pairs) > 0:
                         index_contact_pairs.setdefault(
                             index[chain1][i], []).extend(pairs)
